@@ -4,7 +4,7 @@
 #include <m4ri/triangular.h>
 #include <m4ri/echelonform.h>
 const char *prop_id = "C16";
-typedef struct { int kind, m, l, n, param, team, nested, prefill; } scen_t;
+typedef struct { int kind, m, l, n, param, team, nested, prefill, limit, outer; } scen_t;
 enum { F_MUL_MP, F_ADDMUL_MP, F_MUL, F_M4RM, F_ECH, F_ADDMUL_M4RM, F_TRSM_LL, F_TRSM_UL, F_TRSM_LR, F_TRSM_UR, F_ECH_PLUQ, F_INV, F_TRTRI, F_NK };
 static const char *fname[] = {"mzd_mul_mp", "mzd_addmul_mp", "mzd_mul", "mzd_mul_m4rm", "mzd_echelonize_m4ri", "mzd_addmul_m4rm", "mzd_trsm_lower_left", "mzd_trsm_upper_left", "mzd_trsm_lower_right", "mzd_trsm_upper_right", "mzd_echelonize_pluq", "mzd_inv_m4ri", "mzd_trtri_upper"};
 static scen_t SC[4096]; static int nsc = 0, cur = 0; static char NAME[200];
@@ -12,6 +12,7 @@ static pm *A, *B, *C0, *REFM; static int REFRANK; static uint64_t GOTD; static i
 static int g_tier = 0, g_teams_all = 0, g_prefill_only = 0; static unsigned g_kinds = 0xffffffffu; static int g_maxteam = 99; static char g_as[8] = "C16";
 static void add(int kind, int m, int l, int n, int param, int team) { if (!(g_kinds & (1u << kind)) || team > g_maxteam) return; if (nsc < 4096) SC[nsc++] = (scen_t){kind, m, l, n, param, team, 1, 0}; }
 static void add_prefill(int kind, int m, int l, int n, int param, int team) { if (nsc < 4096) SC[nsc++] = (scen_t){kind, m, l, n, param, team, 1, 1}; }
+static void add_env(int kind, int m, int l, int n, int param, int team, int limit, int outer) { if (!(g_kinds & (1u << kind)) || team > g_maxteam) return; if (nsc < 4096) SC[nsc++] = (scen_t){kind, m, l, n, param, team, 1, 0, limit, outer}; }
 static void add_nested(int kind, int m, int l, int n, int param, int team, int nested) { if (!(g_kinds & (1u << kind)) || team > g_maxteam) return; if (nsc < 4096) SC[nsc++] = (scen_t){kind, m, l, n, param, team, nested, 0}; }
 void hb_args(int argc, char **argv) {
   int tmin = 1, tmax = 16;
@@ -40,6 +41,10 @@ void hb_args(int argc, char **argv) {
        columns only, inner dimension only, ...) */
     for (int rm = 0; rm < 8; rm++) { int m = (rm & 1) ? 300 : 256, l = (rm & 2) ? 290 : 256, n = (rm & 4) ? 200 : 256; add(F_MUL_MP, m, l, n, 64, 2); add(F_ADDMUL_MP, m, l, n, 64, 2); if (rm == 1 || rm == 4 || rm == 6) { add(F_ADDMUL_MP, m, l, n, 128, 4); add(F_MUL_MP, m, l, n, 128, 4); } }
     add(F_TRTRI, 700, 0, 0, 0, 2); add(F_TRTRI, 400, 0, 0, 0, 4);
+    /* the runtime delivers FEWER threads than omp_get_max_threads() / a num_threads clause ask for (thread limit, dynamic adjustment),
+       and the front ends are called from inside an application's own parallel region (inner regions serialised) */
+    for (int lim = 1; lim <= 3; lim++) { add_env(F_MUL_MP, 200, 257, 130, 64, 4, lim, 0); add_env(F_ADDMUL_MP, 131, 129, 200, 64, 4, lim, 0); }
+    add_env(F_MUL_MP, 200, 257, 130, 64, 16, 2, 0); add_env(F_MUL_MP, 200, 257, 130, 64, 2, 0, 1); add_env(F_ADDMUL_MP, 131, 129, 200, 64, 4, 0, 1); add_env(F_M4RM, 1025, 64, 64, 0, 2, 0, 1);
     for (int team = 2; team <= 4; team += 2) { add(F_TRSM_LL, 650, 0, 70, 0, team); add(F_TRSM_UL, 650, 0, 70, 0, team); add(F_TRSM_LR, 600, 0, 70, 0, team); add(F_TRSM_UR, 600, 0, 70, 0, team); add(F_ECH_PLUQ, 700, 0, 200, 1, team); add(F_INV, 600, 0, 0, 0, team); }
     return;
   }
@@ -53,12 +58,13 @@ void hb_args(int argc, char **argv) {
     add(F_M4RM, 1025, 64, 64, 0, team); add(F_M4RM, 1537, 70, 65, 3, team); add(F_ADDMUL_M4RM, 1030, 65, 64, 0, team); add(F_MUL, 1100, 64, 130, 0, team);
     add(F_ECH, 1100, 0, 200, 1, team); add(F_ECH, 1540, 0, 130, 0, team); add(F_ECH, 520, 0, 520, 1, team);
     if (team <= 5) for (int rm = 0; rm < 8; rm++) { int m = (rm & 1) ? 300 : 256, l = (rm & 2) ? 290 : 256, n = (rm & 4) ? 200 : 256; add(F_MUL_MP, m, l, n, 64, team); add(F_ADDMUL_MP, m, l, n, 64, team); add(F_ADDMUL_MP, m, l, n, 128, team); }
+    if (team >= 2) { for (int lim = 1; lim < team && lim <= 4; lim++) { add_env(F_MUL_MP, 200, 257, 130, 64, team, lim, 0); add_env(F_ADDMUL_MP, 131, 129, 200, 64, team, lim, 0); add_env(F_MUL_MP, 300, 256, 256, 64, team, lim, 0); } add_env(F_MUL_MP, 200, 257, 130, 64, team, 0, 1); add_env(F_ADDMUL_MP, 131, 129, 200, 64, team, 0, 1); add_env(F_M4RM, 1025, 64, 64, 0, team, 0, 1); }
     if (team <= 5 || team == 8 || team == 16) { add(F_TRTRI, 700, 0, 0, 0, team); add(F_TRTRI, 400, 0, 0, 0, team); add(F_TRSM_LL, 650, 0, 70, 0, team); add(F_TRSM_UL, 650, 0, 70, 0, team); add(F_TRSM_LR, 600, 0, 70, 0, team); add(F_TRSM_UR, 600, 0, 70, 0, team); add(F_TRSM_LL, 1100, 0, 130, 0, team); add(F_TRSM_UL, 1100, 0, 65, 0, team); add(F_ECH_PLUQ, 700, 0, 200, 1, team); add(F_ECH_PLUQ, 1100, 0, 130, 0, team); add(F_INV, 600, 0, 0, 0, team); add(F_INV, 530, 0, 0, 3, team); }
     if (team >= 2 && team <= 4) { add_nested(F_MUL_MP, 1200, 700, 1160, 512, team, 2); add_nested(F_ADDMUL_MP, 1160, 650, 1200, 512, team, 2); add_nested(F_MUL_MP, 1200, 300, 1200, 512, team, 3); }
   }
 }
 int hb_nscenarios(void) { return nsc; }
-void hb_select(int s) { cur = s; scen_t *q = &SC[s]; snprintf(NAME, sizeof NAME, "%s(%dx%dx%d,p=%d)|threads=%d%s", fname[q->kind], q->m, q->l, q->n, q->param, q->team, q->nested > 1 ? (q->nested == 2 ? "|nested=2" : "|nested=3") : q->prefill ? "|cache-prefilled" : ""); icb_team_size = q->team; icb_nested_size = q->nested;
+void hb_select(int s) { cur = s; scen_t *q = &SC[s]; snprintf(NAME, sizeof NAME, "%s(%dx%dx%d,p=%d)|threads=%d%s", fname[q->kind], q->m, q->l, q->n, q->param, q->team, q->nested > 1 ? (q->nested == 2 ? "|nested=2" : "|nested=3") : q->prefill ? "|cache-prefilled" : q->limit == 1 ? "|delivered<=1" : q->limit == 2 ? "|delivered<=2" : q->limit == 3 ? "|delivered<=3" : q->limit == 4 ? "|delivered<=4" : q->outer ? "|called-inside-a-parallel-region" : ""); icb_thread_limit = q->limit; icb_team_size = q->team; icb_nested_size = q->nested;
   /* teams of 2-3: every schedule within the preemption bound; 4-5: default schedule + every single deviation, with ALL section-to-thread assignments; larger: default + every single deviation */
   icb_max_deviations = (q->team <= (q->prefill ? 2 : 3) && q->nested == 1) ? 1000 : 1; /* cache-prefilled start state: ~180 critical sections per run, so 3 threads get default + every single deviation */
   if (q->nested > 1) icb_max_deviations = g_tier ? 1 : 0; /* nested teams: the race detector judges the default schedule (quick); plus every single deviation (thorough) */ icb_free_sections = (q->team == 4 || q->team == 5);
@@ -91,10 +97,8 @@ void hb_prepare(void) {
     pm *AB = pm_mul(A, B); if (q->kind == F_ADDMUL_MP || q->kind == F_ADDMUL_M4RM) { REFM = pm_add(C0, AB); pm_free(AB); } else REFM = AB;
   }
 }
-void hb_root(void) {
-  scen_t *q = &SC[cur]; GOTD = 0; GOTRANK = -1;
-  if (q->prefill) { /* 16+2 distinct large cacheable sizes, allocated and released: the cache is full and its eviction index has advanced */
-    void *F[18]; size_t base = (size_t)__M4RI_MMC_THRESHOLD - 64; for (int i = 0; i < 18; i++) F[i] = m4ri_mmc_malloc(base - 64 * (size_t)i); for (int i = 0; i < 18; i++) m4ri_mmc_free(F[i], base - 64 * (size_t)i); }
+static uint64_t do_op(scen_t *q, int *rank) {
+  uint64_t got;
   mzd_t *Az = mzd_from_pm(A), *Bz = B ? mzd_from_pm(B) : NULL, *Cz = NULL, *R = NULL;
   switch (q->kind) {
   case F_MUL_MP: R = mzd_mul_mp(NULL, Az, Bz, q->param); break;
@@ -102,8 +106,8 @@ void hb_root(void) {
   case F_MUL: R = mzd_mul(NULL, Az, Bz, q->param); break;
   case F_M4RM: R = mzd_mul_m4rm(NULL, Az, Bz, q->param); break;
   case F_ADDMUL_M4RM: Cz = mzd_from_pm(C0); R = mzd_addmul_m4rm(Cz, Az, Bz, q->param); break;
-  case F_ECH: GOTRANK = mzd_echelonize_m4ri(Az, q->param, 0); R = Az; break;
-  case F_ECH_PLUQ: GOTRANK = mzd_echelonize_pluq(Az, 1); R = Az; break;
+  case F_ECH: *rank = mzd_echelonize_m4ri(Az, q->param, 0); R = Az; break;
+  case F_ECH_PLUQ: *rank = mzd_echelonize_pluq(Az, 1); R = Az; break;
   case F_INV: R = mzd_inv_m4ri(NULL, Az, q->param); break;
   case F_TRTRI: mzd_trtri_upper(Az); R = Az; break;
   case F_TRSM_LL: mzd_trsm_lower_left(Az, Bz, 0); R = Bz; break;
@@ -111,13 +115,26 @@ void hb_root(void) {
   case F_TRSM_LR: mzd_trsm_lower_right(Az, Bz, 0); R = Bz; break;
   case F_TRSM_UR: mzd_trsm_upper_right(Az, Bz, 0); R = Bz; break;
   }
-  if (q->kind == F_ECH && !q->param) { pm *G = pm_from_mzd(R); pm *GR = pm_rref(G); pm *AR = pm_rref(A); GOTD = (pm_is_row_echelon(G) && pm_eq(GR, AR)) ? 1 : 2; pm_free(G); pm_free(GR); pm_free(AR); }
-  else GOTD = mzd_eq_pm(R, REFM) ? 1 : 2;
-  if (mzd_padding_dirty(R) >= 0) GOTD = 3;
+  if (q->kind == F_ECH && !q->param) { pm *G = pm_from_mzd(R); pm *GR = pm_rref(G); pm *AR = pm_rref(A); got = (pm_is_row_echelon(G) && pm_eq(GR, AR)) ? 1 : 2; pm_free(G); pm_free(GR); pm_free(AR); }
+  else got = mzd_eq_pm(R, REFM) ? 1 : 2;
+  if (mzd_padding_dirty(R) >= 0) got = 3;
   if (R && R != Az && R != Cz && R != Bz) mzd_free(R);
   if (Cz) mzd_free(Cz);
   if (Bz) mzd_free(Bz);
   mzd_free(Az);
+  return got;
+}
+extern void GOMP_parallel(void (*fn)(void *), void *data, unsigned num_threads, unsigned flags);
+extern int omp_get_thread_num(void);
+static uint64_t OUTER_GOT[4];
+static void outer_body(void *a) { (void)a; int r = omp_get_thread_num(), rk = -1; if (r < 4) OUTER_GOT[r] = do_op(&SC[cur], &rk); }
+void hb_root(void) {
+  scen_t *q = &SC[cur]; GOTD = 0; GOTRANK = -1;
+  if (q->prefill) { /* 16+2 distinct large cacheable sizes, allocated and released: the cache is full and its eviction index has advanced */
+    void *F[18]; size_t base = (size_t)__M4RI_MMC_THRESHOLD - 64; for (int i = 0; i < 18; i++) F[i] = m4ri_mmc_malloc(base - 64 * (size_t)i); for (int i = 0; i < 18; i++) m4ri_mmc_free(F[i], base - 64 * (size_t)i); }
+  if (q->outer) { /* an application region of 2 threads, each calling the library on its own matrices: the library's regions are nested (serialised) */
+    OUTER_GOT[0] = OUTER_GOT[1] = 0; GOMP_parallel(outer_body, NULL, 2, 0); GOTD = (OUTER_GOT[0] == 1 && OUTER_GOT[1] == 1) ? 1 : (OUTER_GOT[0] == 3 || OUTER_GOT[1] == 3) ? 3 : 2;
+  } else GOTD = do_op(q, &GOTRANK);
   icb_report_digest(GOTD);
 }
 void hb_verify(void) {
